@@ -802,7 +802,7 @@ def run(ctx) -> core.Report:
             C._RECURSION_THRESHOLD = c["thr_num"]
             C._compile_cached.cache_clear()
             c["py_dict"] = call(lambda: C.compile_to_dict_function(e, V)(dict(c["pt"])))
-            if ci % 4 == 0 and not c["tag"].startswith("chain"):
+            if ci % 4 == 0 and not c["tag"].startswith(("chain", "zigzag")):
                 c["py_cv"] = call(lambda: C.CompiledExpression(e, V).value(arr))
         finally:
             C._RECURSION_THRESHOLD = old
